@@ -198,6 +198,25 @@ def coq_check_props(prop_file, timeout=900):
     return res
 
 
+def coqchk(module, timeout=3000):
+    """Thorough tier: re-check the compiled property module and everything it depends on with the
+    independent checker; returns dict(ok, axioms, summary)."""
+    with CoqLock():
+        rc, out, dt = sh("coqchk -silent -o -Q . ZV %s" % module, cwd=COQ, timeout=timeout)
+    i = out.find("CONTEXT SUMMARY")
+    summ = out[i:] if i >= 0 else out[-1500:]
+    ax = []
+    m = re.search(r"\* Axioms:(.*?)\n\s*\n\* Constants", summ, re.S)
+    if m:
+        body = m.group(1).strip()
+        if body != "<none>":
+            ax = [l.strip() for l in body.split("\n") if l.strip()]
+    bad = [a for a in ax if a.split(".")[-1] not in STDLIB_AXIOMS and a not in STDLIB_AXIOMS]
+    clean = all(("%s: <none>" % k) in summ for k in (
+        "relying on type-in-type", "relying on unsafe (co)fixpoints", "whose positivity is assumed"))
+    return dict(ok=(rc == 0 and clean and not bad), axioms=ax, summary=summ[-1200:], wall_s=round(dt, 1))
+
+
 def regen_consts(group, gocmd_bin, args="-consts"):
     """Regenerate coq/<group>/Consts.v from the source tree through the harness binary;
     rewritten only if the content changed (then dependent proofs are re-checked by make)."""
@@ -323,6 +342,13 @@ class Ctx:
         res = coq_check_props(prop_file) if ok else dict(ok=False, theorems=[], error="make failed", declared=[])
         info.update(res)
         info["ok"] = bool(ok and res["ok"] and not hits)
+        if info["ok"] and self.tier == "thorough" and not os.environ.get("VERIF_NO_COQCHK"):
+            mod = "ZV." + prop_file[:-2].replace("/", ".")
+            ck = coqchk(mod)
+            info["coqchk"] = ck
+            if not ck["ok"]:
+                info["ok"] = False
+                info["error"] = "coqchk: " + ck["summary"]
         self.proof = info
         return info["ok"], info
 
@@ -369,6 +395,9 @@ class Ctx:
             "build shims: third_party/gorocksdb (stubbed tuning calls), third_party/ugorji (alphabet fix)",
         ])
         cov["theorems"] = thms
+        if pr.get("coqchk"):
+            cov["coqchk"] = dict(ok=pr["coqchk"]["ok"], axioms=pr["coqchk"]["axioms"], wall_s=pr["coqchk"]["wall_s"])
+            cov["checker_cmd"] += " ; coqchk -silent -o -Q . ZV ZV." + pr.get("file", "")[:-2].replace("/", ".")
         if pr.get("error"):
             cov["proof_error"] = pr["error"][-1500:]
         if self.notes:
